@@ -44,18 +44,28 @@ func (s *state) errorf(format string, args ...interface{}) {
 }
 
 func (s *state) errFromNode(format string, args ...interface{}) error {
+	var name = s.templateName()
 	return errortypes.NewErrFilePosf(
-		s.registry.Filename(s.tmpl.Node.Name),
-		s.registry.LineNumber(s.tmpl.Node.Name, s.node),
-		s.registry.ColNumber(s.tmpl.Node.Name, s.node),
+		s.registry.Filename(name),
+		s.registry.LineNumber(name, s.node),
+		s.registry.ColNumber(name, s.node),
 		format,
 		args...,
 	)
 }
 
 func (s *state) callAnnotation() string {
-	return fmt.Sprintf("template %s:%d", s.tmpl.Node.Name,
-		s.registry.LineNumber(s.tmpl.Node.Name, s.node))
+	var name = s.templateName()
+	return fmt.Sprintf("template %s:%d", name, s.registry.LineNumber(name, s.node))
+}
+
+// templateName is the name of the template being executed; it is empty when a
+// standalone expression is evaluated (EvalExpr), which has no template.
+func (s *state) templateName() string {
+	if s.tmpl.Node == nil {
+		return ""
+	}
+	return s.tmpl.Node.Name
 }
 
 // errRecover is the handler that turns panics into returns from the top
